@@ -22,6 +22,11 @@ CHECKS = {
    technique="proptest-generated cases, one fresh process each: (a) log records x bridge configuration x collector filters with a model of who must accept; (b) macro / span-lifecycle histories with the first collector installation at a generated position against a recording log::Log; (c) complete enumeration of the level conversions",
    text="(a) LogTracer built with a generated ignore list and log max level; generated records (5 levels; targets from an alphabet with ignored prefixes, look-alikes, \"log\" and arbitrary text; arbitrary messages; file/line/module present or absent) through four routes (installed logger, log! macro, a local LogTracer, format_trace) while generated collectors (level filter x hint x target filter; scoped, global or none) are current: exactly one event at the current collector iff it accepts the record's own level and target and the route's documented gates pass, none otherwise; the event carries the message and normalized_metadata() returns target, level, file, line and module path. (b) tracing built with the log feature and a recording logger: 11 event and 6 span macro call sites with generated values, span new/enter/exit/record/drop, creating a Dispatch without installing it, then the first installation (scoped, scoped-and-dropped, global, on another thread, with_default) at a generated position: before it every step gives exactly one log record with the documented level and target whose text contains the message and every name=value, afterwards none. (c) Level / LevelFilter / Metadata conversions are mutually inverse and order preserving.",
    note="The logger and the has-been-set flag are one-shot process state, hence a child process per case. With log's max level below TRACE, span enter/exit/close records (TRACE records that the code gates by the span's own level) are tolerated either way. Log text is judged by containment, not exact format."),
+ "C10": dict(
+   category="exploration", design="DESIGN.md §4 C10",
+   technique="generated program corpus (gen/c10.py: macro invocations from a grammar of prefixes x field forms x value kinds x message forms, each with counting wrappers and an expected typed visit sequence) driven by proptest-generated values, collector filtering configurations and run orders; oracle = descriptor vs. what a typed recording collector saw",
+   text="300 (thorough 900, regenerated from VERIF_SEED) generated invocations of span!/event!/the ten level shorthands/enabled!/event_enabled!/span_enabled! with name:/target:/parent: prefixes, 0-6 fields of the forms name = value, % and ? sigils, shorthand and sigil shorthand (through a Deref that counts evaluations), dotted, string-literal, constant and r# names, Empty, over 37 value kinds (all integer widths, NonZero, Wrapping, f32/f64, bool, str/String/Box<str>, bytes, references, Box, display()/debug(), error chains) and literal / positional / captured / width-precision messages. Each case runs 1-6 (form, values) pairs with boundary-biased values under a collector with an optional max level hint, per-level interest never/sometimes/always, per-level enabled() answers and per-target never/off overrides. Enabled: exactly one new_span/event with the macro's level, target, name, parent and declared field names in order; the visitor sees each valued field once, in declaration order (message first), through the method of its type with the exact value (bit-exact floats, Display/Debug text for sigils); every expression evaluated exactly once; Empty not visited, later record of an Empty field presented once, record of an undeclared name ignored. Disabled by the level cap, interest never, or enabled() false: no expression evaluated, no collector call, a disabled span handle.",
+   note="Built without tracing's log feature. r# names are accepted under either spelling. Forms the macros reject at compile time are outside the property; the generator's grammar avoids the one known parsing ambiguity (a prefix followed by a non-identifier first field in a level shorthand) by using event! there."),
  "C13": dict(
    category="exploration", design="DESIGN.md §4 C13",
    technique="proptest-generated (formatter, options, writer expression, multi-thread workload) cases; oracle = denotation of the writer expression over recording sinks + per-record predicates on the bytes of each individual write call",
